@@ -301,7 +301,7 @@ def run_check(spec, tier, base_seed):
     import warnings
     warnings.simplefilter('ignore', RuntimeWarning)
     t0 = time.perf_counter()
-    budget = spec['budget'][tier]
+    budget = int(os.environ.get('VERIF_BUDGET') or spec['budget'][tier])     # override for trials only
     max_runs = spec['max_runs'][tier]
     fam_specs = spec['families']
     print(f'[{prop}] tier={tier} seed={base_seed} nproc={NPROC} budget={budget}s '
